@@ -59,6 +59,41 @@ fn drive_shape(r: &mut crate::rng::Rng) -> String {
     }
 }
 
+/// the six drives of one source from one idle state: all end alike
+fn six_ways(ctx: &mut Ctx, bname: &str, bstate: &Xstate, src: &str) {
+    let src = src.to_string();
+    let mut results: Vec<(String, String)> = Vec::new();
+    for rec in [false, true] {
+        for mode in ["eval", "run", "step"] {
+            let mut xs = bstate.clone();
+            xs.intercept_stdout(true);
+            xs.set_recording_enabled(rec);
+            if !bname.starts_with("limit-set-earlier") { xs.set_insn_limit(Some(LIMIT)).unwrap(); }
+            let r = crate::guarded(|| match mode {
+                "eval" => xs.eval(&src),
+                "run" => xs.compile(&src).and_then(|_| xs.run()),
+                _ => xs.compile(&src).and_then(|_| {
+                    let mut r = Ok(());
+                    let mut guard = 0;
+                    while xs.is_running() && guard < 10 * LIMIT {
+                        guard += 1;
+                        r = xs.next();
+                        if r.is_err() { break; }
+                    }
+                    r
+                }),
+            });
+            let text = match r { Some(r) => finish(&mut xs, &r), None => "panic".into() };
+            results.push((format!("{}/{}", mode, if rec { "rec" } else { "norec" }), text));
+        }
+    }
+    let first = results[0].1.clone();
+    let all_same = results.iter().all(|(_, t)| *t == first);
+    ctx.tag(if first.starts_with("ok") { "result:ok" } else if first.contains("limit reached") { "result:limit" } else { "result:err" });
+    let obs = results.iter().map(|(m, t)| format!("{}: {}", m, t)).collect::<Vec<_>>().join("\n");
+    ctx.check(all_same, || format!("C15 base={} `{}`", bname, src), || format!("all six drive modes end like eval/norec: {}", first), || obs);
+}
+
 pub fn run(ctx: &mut Ctx) {
     let base = Xstate::boot().unwrap();
     let cfg = GenCfg { endless: true, ..GenCfg::default() };
@@ -96,36 +131,7 @@ pub fn run(ctx: &mut Ctx) {
         let (bname, bstate) = { let i = if ctx.rng.chance(25) || src.contains("#(") { ctx.rng.below(bases.len()) } else { 0 }; (bases[i].0, &bases[i].1) };
         ctx.tag(&format!("base:{}", bname));
         ctx.progress(&format!("C15 base={} `{}`", bname, src));
-        let mut results: Vec<(String, String)> = Vec::new();
-        for rec in [false, true] {
-            for mode in ["eval", "run", "step"] {
-                let mut xs = bstate.clone();
-                xs.intercept_stdout(true);
-                xs.set_recording_enabled(rec);
-                xs.set_insn_limit(Some(LIMIT)).unwrap();
-                let r = crate::guarded(|| match mode {
-                    "eval" => xs.eval(&src),
-                    "run" => xs.compile(&src).and_then(|_| xs.run()),
-                    _ => xs.compile(&src).and_then(|_| {
-                        let mut r = Ok(());
-                        let mut guard = 0;
-                        while xs.is_running() && guard < 10 * LIMIT {
-                            guard += 1;
-                            r = xs.next();
-                            if r.is_err() { break; }
-                        }
-                        r
-                    }),
-                });
-                let text = match r { Some(r) => finish(&mut xs, &r), None => "panic".into() };
-                results.push((format!("{}/{}", mode, if rec { "rec" } else { "norec" }), text));
-            }
-        }
-        let first = results[0].1.clone();
-        let all_same = results.iter().all(|(_, t)| *t == first);
-        ctx.tag(if first.starts_with("ok") { "result:ok" } else if first.contains("limit reached") { "result:limit" } else { "result:err" });
-        let obs = results.iter().map(|(m, t)| format!("{}: {}", m, t)).collect::<Vec<_>>().join("\n");
-        ctx.check(all_same, || format!("C15 base={} `{}`", bname, src), || format!("all six drive modes end like eval/norec: {}", first), || obs);
+        six_ways(ctx, bname, bstate, &src);
         // correspondence on the compiled bytecode: run vs step*, recording off/on (not for user-defined immediate words:
         // what they do at build time — output, stack — is not part of the machine set-up handed to the model)
         if src.contains(" immediate ") { ctx.tag("skipped:user-immediate"); continue; }
@@ -157,5 +163,39 @@ pub fn run(ctx: &mut Ctx) {
         }
         ctx.tag(&format!("drive:{}/{}", if stepwise { "step" } else { "run" }, if rec { "rec" } else { "norec" }));
         ctx.case(format!("C15 vm {} view=full script={}", setup, script.join(",")), answers.join(" ; "));
+    }
+    // user-defined immediate words that WRITE while the source is built — a counter in a variable, the byte order, the
+    // position in the input: the build is the same build whether the source is being evaluated or compiled (the
+    // variables exist before the source: a variable declared by the source itself gets its value only when it runs)
+    {
+        let mut with_counter = base.clone();
+        with_counter.intercept_stdout(true);
+        with_counter.eval("0 var cnt0 |01 02 03 04| open-bitstr").unwrap();
+        for src in [
+            ": bump immediate cnt0 1 + ! cnt0 ; bump bump cnt0 println",
+            "little : be immediate big ; be 258 u16! println",
+            ": be immediate big ; : le immediate little ; be 1 u16! le 1 u16! be println println big? println",
+            ": skip8 immediate offset 8 + ! offset ; skip8 u8 println skip8 u8 println",
+            ": rd immediate u8 drop ; rd rd u8 println offset println",
+            ": twice immediate cnt0 2 * 1 + ! cnt0 ; twice : user twice cnt0 ; user println cnt0 println",
+            ": mk immediate 7 var made ; mk 1 println",
+            ": lim immediate cnt0 1 + ! cnt0 ; 3 0 do lim I drop loop cnt0 println",
+            ": bump immediate cnt0 1 + ! cnt0 ; bump nosuchword",
+        ] {
+            ctx.tag("prog:user-immediate-writes");
+            six_ways(ctx, "counter-and-input", &with_counter, src);
+        }
+    }
+    // the host set the instruction limit some time ago and the interpreter has worked since: what has been counted
+    // stays counted, however the next program is driven and whether or not recording is switched on for it
+    {
+        let mut earlier = base.clone();
+        earlier.intercept_stdout(true);
+        earlier.set_insn_limit(Some(LIMIT)).unwrap();
+        earlier.eval("0 var cnt0 20 0 do cnt0 I + ! cnt0 loop").unwrap();
+        for src in ["1 2 + println", "cnt0 println", "5 0 do I drop loop", ": f 3 0 do I drop loop ; f f", "#( 1 2 + #) println", "begin 1 drop repeat"] {
+            ctx.tag("prog:limit-set-earlier");
+            six_ways(ctx, "limit-set-earlier", &earlier, src);
+        }
     }
 }
